@@ -1,3 +1,4 @@
+import DuneVerif.Gen.C05
 /-
 C05 — model of Dune::Interface (dune/common/parallel/interface.hh) and of the communicators built on it
 (dune/common/parallel/communicator.hh: BufferedCommunicator, DatatypeCommunicator) at the message level.
@@ -6,6 +7,10 @@ Layering.  The remote index lists are *defined* here by the set-theoretic specif
 for `RemoteIndices::rebuild` (`remoteSpec`: per neighbour the sorted intersection of the published index sets);
 nothing of C04's Lean files is imported.  Everything above it mirrors the C++:
 
+* `evalTest`, `passesCount`, `passesAdd`           the attribute tests of the two loops as REGENERATED from interface.hh
+                                                   (`Gen/C05.lean`, tools/translators/tr_c05.py)
+* `SetExpr`, `setTable`, `altTable`, `maskSet`     attribute sets written with the enumset.hh classes, evaluated with the
+                                                   REGENERATED `contains` functions
 * `passes`, `countPass`, `addPass`, `infoOf`      `InterfaceBuilder::buildInterface<…,send>`: the two passes
                                                    (count → `reserve`, then `add`) over one remote index list with
                                                    the two attribute tests
@@ -114,15 +119,32 @@ def Info.size (i : Info) : Nat := i.idx.length
 def passes (send : Bool) (S T : Nat → Bool) (x : RIdx) : Bool :=
   if (if send then T x.ra else S x.ra) then (if send then S x.a else T x.a) else false
 
+/-- one attribute test as the translator read it from the source (`Gen.Test`):
+    `send ? <sendSet>.contains(<sendAttr>) : <recvSet>.contains(<recvAttr>)` -/
+def evalTest (t : Gen.Test) (send : Bool) (S T : Nat → Bool) (x : RIdx) : Bool :=
+  let set := match (if send then t.sendSet else t.recvSet) with
+    | Gen.FlagSet.source => S
+    | Gen.FlagSet.dest => T
+  match (if send then t.sendAttr else t.recvAttr) with
+  | Gen.Attr.remote => set x.ra
+  | Gen.Attr.loc => set x.a
+
+/-- the nested tests of the first / second loop of `buildInterface`, REGENERATED from interface.hh
+    (`Gen.countOuter` … `Gen.addInner`); `passesCount_eq`, `passesAdd_eq`: both are `passes` -/
+def passesCount (send : Bool) (S T : Nat → Bool) (x : RIdx) : Bool :=
+  if evalTest Gen.countOuter send S T x then evalTest Gen.countInner send S T x else false
+def passesAdd (send : Bool) (S T : Nat → Bool) (x : RIdx) : Bool :=
+  if evalTest Gen.addOuter send S T x then evalTest Gen.addInner send S T x else false
+
 /-- first loop: `++size` -/
 def countPass (send : Bool) (S T : Nat → Bool) : List RIdx → Nat
   | [] => 0
-  | x :: xs => (if passes send S T x then 1 else 0) + countPass send S T xs
+  | x :: xs => (if passesCount send S T x then 1 else 0) + countPass send S T xs
 
 /-- second loop: `interfaceInformation.add(process, local index)` -/
 def addPass (send : Bool) (S T : Nat → Bool) : List RIdx → Info → Info
   | [], inf => inf
-  | x :: xs, inf => addPass send S T xs (if passes send S T x then inf.add x.l else inf)
+  | x :: xs, inf => addPass send S T xs (if passesAdd send S T x then inf.add x.l else inf)
 
 /-- both passes for one neighbour and one side -/
 def infoOf (send : Bool) (S T : Nat → Bool) (l : List RIdx) : Info :=
@@ -158,6 +180,48 @@ def recvSide (fwd : Bool) (e : Info × Info) : Info := if fwd then e.2 else e.1
 
 /-- `Selection<AttributeSet>(indexSet)`: the local indices of the entries whose attribute is in the set -/
 def selection (S : Nat → Bool) (s : List Entry) : List Nat := (s.filter fun e => S e.a).map (·.l)
+
+/-! ### attribute sets (enumset.hh) -/
+
+/-- an attribute set written with the classes of enumset.hh; `contains` is evaluated with the functions REGENERATED
+    from enumset.hh (`Gen.enumItemContains`, …) -/
+inductive SetExpr where
+  | empty
+  | all
+  | item (i : Int)
+  | range (lo hi : Int)
+  | neg (s : SetExpr)
+  | comb (a b : SetExpr)
+  deriving Repr
+
+def SetExpr.contains : SetExpr → Int → Bool
+  | .empty => Gen.emptySetContains
+  | .all => Gen.allSetContains
+  | .item i => Gen.enumItemContains i
+  | .range lo hi => Gen.enumRangeContains lo hi
+  | .neg s => Gen.negateSetContains s.contains
+  | .comb a b => Gen.combineContains a.contains b.contains
+
+/-- the sixteen sets over the attributes {0,1,2,3} as the harness writes them (`setTable` in harness/mpi_c05.cc:
+    `M0` … `M15`), by bit mask -/
+def setTable : List SetExpr :=
+  [.empty, .item 0, .item 1, .range 0 1, .item 2, .comb (.item 0) (.item 2), .range 1 2, .neg (.item 3),
+   .item 3, .comb (.item 3) (.item 0), .comb (.item 1) (.item 3), .neg (.item 2), .range 2 3,
+   .comb (.range 2 3) (.item 0), .comb (.item 1) (.range 2 3), .all]
+
+/-- the same sets written with nested `Combine`, `NegateSet<Combine<…>>` and `combine()` (`Alt` in the harness) -/
+def altTable : List SetExpr :=
+  [.neg .all, .neg (.comb (.range 1 2) (.item 3)), .neg (.comb (.comb (.item 0) (.item 2)) (.item 3)),
+   .neg (.comb (.item 2) (.item 3)), .neg (.comb (.range 0 1) (.item 3)), .comb (.item 0) (.item 2),
+   .neg (.comb (.item 0) (.item 3)), .comb (.comb (.item 0) (.item 1)) (.item 2),
+   .neg (.comb (.comb (.item 0) (.item 1)) (.item 2)), .neg (.comb (.item 1) (.item 2)),
+   .comb (.comb (.item 1) .empty) (.item 3), .comb (.comb (.item 0) (.item 1)) (.item 3),
+   .neg (.comb (.item 0) (.item 1)), .comb (.comb (.item 2) (.item 3)) (.item 0), .neg (.comb (.item 0) .empty),
+   .comb (.comb (.range 0 1) (.item 2)) (.item 3)]
+
+/-- the attribute predicate of mask `m` (`alt`: alternative spelling) -/
+def maskSet (alt : Bool) (m : Nat) (a : Nat) : Bool :=
+  ((if alt then altTable else setTable).getD m .empty).contains (a : Int)
 
 /-! ### BufferedCommunicator::build -/
 
